@@ -1,89 +1,56 @@
-(* Findings for C11, character maps: without the well-formedness predicates of Spec.Cmap the enumeration
-   (iterator), the point lookup and RuneRanges of the model disagree.  Every witness is closed and checked
-   by computation on the model as written. *)
-From TV Require Import Model.Cmap Spec.Cmap.
+(* Former findings F13a/F13b/F13c of font/cmap.go (C11), now repaired in the library (`fix:` commits: cmap format 4 Iter and
+   RuneRanges leave out the missing-glyph entries; ProcessCmap drops the format 4 segments that are empty or not after
+   the previous one; the legacy cmap remapers enumerate the runes they remap; newCmap10 ignores the entries past the last
+   Unicode code point; sanitizeCmapGroups for formats 12/13).  The former witnesses are kept as regression facts about
+   the model of the repaired code, together with what the un-sanitized tables would still do (which is why ProcessCmap
+   sanitizes).  Never imported by Props. *)
+From TV Require Import Model.Cmap Model.CmapSel Spec.Cmap.
 
-(* format 4, a glyph index array containing the missing-glyph entry 0: the iterator yields the rune with
-   glyph 0, Lookup reports it as absent *)
-Lemma cmap4_zero_entry_iter_refuted :
-  exists s, wf_cmap4 s = false /\
-            iter4 s = Ok [(10, 8); (11, 0); (12, 10)] /\
+(* F13a: a glyph index array containing the missing-glyph entry 0: the iterator and RuneRanges now skip rune 11 *)
+Lemma cmap4_zero_entry_fixed :
+  exists s, wf_cmap4 s = true /\
+            iter4 s = Ok [(10, 8); (12, 10)] /\
+            rune_ranges4 s = [(10, 10); (12, 12)] /\
             lookup4 s 11 = Ok (0, false).
 Proof. exists [mkSeg4 10 12 3 (Some [5; 0; 7])]. vm_compute. repeat split; reflexivity. Qed.
 
-Lemma cmap4_zero_entry_not_iter_agrees :
-  exists s l, iter4 s = Ok l /\ ~ iter_agrees l (lookup4 s).
-Proof.
-  exists [mkSeg4 10 12 3 (Some [5; 0; 7])], [(10, 8); (11, 0); (12, 10)].
-  split; [vm_compute; reflexivity|].
-  intros (_ & H). specialize (H 11 0).
-  assert (Hr : int32_ok 11) by (unfold int32_ok; lia).
-  assert (Hi : In (11, 0) [(10, 8); (11, 0); (12, 10)]) by (right; left; reflexivity).
-  apply (proj1 (H Hr)) in Hi. vm_compute in Hi. discriminate Hi.
-Qed.
-
-(* the same cmap: RuneRanges covers rune 11 (coverage over-approximation), Lookup does not map it *)
-Lemma cmap4_zero_entry_ranges_refuted :
-  exists s, wf_cmap4 s = false /\
-            rune_ranges4 s = [(10, 12)] /\
-            in_ranges (rune_ranges4 s) 11 = true /\
-            lookup4 s 11 = Ok (0, false).
-Proof. exists [mkSeg4 10 12 3 (Some [5; 0; 7])]. vm_compute. repeat split; reflexivity. Qed.
-
-Lemma cmap4_zero_entry_not_ranges_domain :
-  exists s, ~ ranges_are_domain (rune_ranges4 s) (lookup4 s).
-Proof.
-  exists [mkSeg4 10 12 3 (Some [5; 0; 7])]. intros H. specialize (H 11).
-  assert (Hr : int32_ok 11) by (unfold int32_ok; lia).
-  destruct (proj1 (H Hr)) as (g & Hg); [vm_compute; reflexivity|].
-  vm_compute in Hg. discriminate Hg.
-Qed.
-
-(* format 12, overlapping groups: rune 15 is enumerated twice, first with glyph 6 (first group) while
-   Lookup answers with the second group's glyph 100 *)
-Lemma cmap12_overlap_duplicates_refuted :
-  exists s, wf_cmap12 s = false /\
-            count_occ Z.eq_dec (map fst (iter12 s)) 15 = 2%nat /\
-            nth 5 (iter12 s) (0, 0) = (15, 6) /\
-            nth 11 (iter12 s) (0, 0) = (15, 100) /\
-            lookup12 s 15 = Ok (100, true).
+(* F13b, format 12: overlapping groups are reduced to the first one by sanitizeCmapGroups (newCmap12) *)
+Lemma cmap12_overlap_sanitized :
+  exists s, wf_cmap12 s = false /\ sanitize12 s = [mkGrp 10 20 1] /\ wf_cmap12 (sanitize12 s) = true.
+Proof. exists [mkGrp 10 20 1; mkGrp 15 25 100]. vm_compute. repeat split; reflexivity. Qed.
+(* ... which is needed: on the raw groups rune 15 is enumerated twice *)
+Lemma cmap12_overlap_raw_duplicates :
+  exists s, count_occ Z.eq_dec (map fst (iter12 s)) 15 = 2%nat /\ lookup12 s 15 = Ok (100, true).
 Proof. exists [mkGrp 10 20 1; mkGrp 15 25 100]. vm_compute. repeat split; reflexivity. Qed.
 
-Lemma cmap12_overlap_not_iter_agrees :
-  exists s, ~ iter_agrees (iter12 s) (lookup12 s).
-Proof.
-  exists [mkGrp 10 20 1; mkGrp 15 25 100]. intros (_ & H). specialize (H 15 6).
-  assert (Hr : int32_ok 15) by (unfold int32_ok; lia).
-  assert (Hi : In (15, 6) (iter12 [mkGrp 10 20 1; mkGrp 15 25 100])).
-  { vm_compute. do 5 right. left. reflexivity. }
-  apply (proj1 (H Hr)) in Hi. vm_compute in Hi. discriminate Hi.
-Qed.
-
-(* format 4, segments out of order: rune 20 is enumerated, the bisection of Lookup misses it *)
-Lemma cmap4_unsorted_lookup_refuted :
+(* F13b, format 4: segments out of order are reduced by sanitizeCmap4 (ProcessCmap); on the raw segments rune 20 is
+   enumerated while the bisection of Lookup misses it *)
+Lemma cmap4_unsorted_sanitized :
   exists s, wf_cmap4 s = false /\
-            iter4 s = Ok [(20, 20); (21, 21); (10, 10); (11, 11)] /\
-            lookup4 s 20 = Ok (0, false).
+            iter4 s = Ok [(20, 20); (21, 21); (10, 10); (11, 11)] /\ lookup4 s 20 = Ok (0, false) /\
+            sanitize4 s = [mkSeg4 20 21 0 None] /\ wf_cmap4 (sanitize4 s) = true /\
+            lookup4 (sanitize4 s) 20 = Ok (20, true) /\ lookup4 (sanitize4 s) 10 = Ok (0, false).
 Proof. exists [mkSeg4 20 21 0 None; mkSeg4 10 11 0 None]. vm_compute. repeat split; reflexivity. Qed.
 
-Lemma cmap4_unsorted_not_iter_agrees :
-  exists s l, iter4 s = Ok l /\ ~ iter_agrees l (lookup4 s).
+(* F13b, a delta segment with end < start was enumerated over wrap16 (end - start) + 1 = 65527 runes, none of which
+   Lookup maps; sanitizeCmap4 drops it *)
+Lemma cmap4_reversed_segment_sanitized :
+  exists s, (exists l, iter4 s = Ok l /\ zlen l = 65527) /\ lookup4 s 20 = Ok (0, false) /\ sanitize4 s = [].
 Proof.
-  exists [mkSeg4 20 21 0 None; mkSeg4 10 11 0 None], [(20, 20); (21, 21); (10, 10); (11, 11)].
-  split; [vm_compute; reflexivity|].
-  intros (_ & H). specialize (H 20 20).
-  assert (Hr : int32_ok 20) by (unfold int32_ok; lia).
-  assert (Hi : In (20, 20) [(20, 20); (21, 21); (10, 10); (11, 11)]) by (left; reflexivity).
-  apply (proj1 (H Hr)) in Hi. vm_compute in Hi. discriminate Hi.
+  exists [mkSeg4 20 10 0 None]. split; [eexists; split; [reflexivity|vm_compute; reflexivity]|].
+  vm_compute. split; reflexivity.
 Qed.
 
-(* formats 12/13, two groups sharing an end point: RuneRanges merges them into one range while the
-   iterator enumerates the shared rune 20 twice (glyphs 11 and 50; Lookup answers 50) *)
-Lemma rune_ranges_shared_endpoint_refuted :
-  exists s, wf_cmap12 s = false /\
-            rune_ranges12 s = [(10, 30)] /\
-            count_occ Z.eq_dec (map fst (iter12 s)) 20 = 2%nat /\
-            nth 10 (iter12 s) (0, 0) = (20, 11) /\
-            nth 11 (iter12 s) (0, 0) = (20, 50) /\
-            lookup12 s 20 = Ok (50, true).
-Proof. exists [mkGrp 10 20 1; mkGrp 20 30 50]. vm_compute. repeat split; reflexivity. Qed.
+(* F13c: a symbol cmap 0xF020..0xF022: Lookup(0x20) succeeds through the remaper and Iter now yields 0x20..0x22 too *)
+Lemma symbol_remaper_iter_fixed :
+  let inner := [mkSeg4 61472 61474 7 None] in
+  remap_symbol (lookup4 inner) 32 = Ok (61479, true) /\
+  (do i <- iter4 inner; remap_iter i (lookup4 inner) (remap_symbol (lookup4 inner)) 255)
+    = Ok [(61472, 61479); (61473, 61480); (61474, 61481); (32, 61479); (33, 61480); (34, 61481)].
+Proof. vm_compute. split; reflexivity. Qed.
+
+(* format 10 with a start code beyond the Unicode range: no entry is kept (rune 0x1000041 would be recorded as U+0041
+   by the 24-bit pages of the coverage) *)
+Lemma cmap10_beyond_unicode_fixed :
+  new_cmap10 16777281 [7] = mkCmap6 16777281 [] /\ new_cmap10 1114110 [1; 2; 3] = mkCmap6 1114110 [1; 2].
+Proof. vm_compute. split; reflexivity. Qed.
